@@ -5,7 +5,7 @@ TIER=${1:-quick}; shift
 SEEDS=${@:-0 1 2 3}
 IDS=$(python3 -c "import json; print(' '.join(c['property_id'] for c in json.load(open('MANIFEST.json'))['checks']))")
 for id in $IDS; do for s in $SEEDS; do
-  out=$(VERIF_EVIDENCE_DIR=/tmp/sweep-evidence ./check $id --tier $TIER --seed $s 2>&1); rc=$?
+  out=$(VERIF_EVIDENCE_DIR=/tmp/sweep-evidence/$TIER-$s ./check $id --tier $TIER --seed $s 2>&1); rc=$?
   echo "$id seed=$s rc=$rc $(echo "$out" | grep "^$id tier" | cut -c1-160)"
   [ $rc -ne 0 ] && echo "$out" | grep -E "^  - |INCONCLUSIVE|watchdog|harness" | head -5
 done; done
